@@ -38,7 +38,7 @@ def main():
             meta = json.load(open("%s/_seed/meta%s.json" % (wt, n)))
         except Exception:
             pass
-        rec = {"property": prop, "mutant": n, "what": meta.get("what"), "needs": meta.get("needs"), "files": meta.get("files"), "ran": {}}
+        rec = {"property": prop, "mutant": int(n) + int(os.environ.get("SEED_OFFSET", "0")), "round": 2 if os.environ.get("SEED_OFFSET") else 1, "what": meta.get("what"), "needs": meta.get("needs"), "files": meta.get("files"), "ran": {}}
         sh("git checkout -- pymodbus", cwd=wt)
         rc0, _ = sh("PYTHONPATH=%s timeout 300 /venv/bin/python %s" % (wt, demo), cwd=wt)
         rca, out = sh("git apply %s" % patch, cwd=wt)
@@ -69,12 +69,12 @@ def main():
         rec["ran"]["check_rc"] = crc
         rec["ran"]["check_tail"] = [l[:200] for l in cout.splitlines() if "VIOLATION" in l or prop + " quick" in l or "MACHINERY" in l][-4:]
         rec["detected"] = crc == 1 and "VIOLATION property=%s" % prop in cout
-        dst = os.path.join(VERIF, "seeded", "%s-%s" % (prop, n))
+        dst = os.path.join(VERIF, "seeded", "%s-%s" % (prop, int(n) + int(os.environ.get("SEED_OFFSET", "0"))))
         os.makedirs(dst, exist_ok=True)
         shutil.copy(patch, os.path.join(dst, "patch.diff"))
         shutil.copy(demo, os.path.join(dst, "demo.py"))
         json.dump(rec, open(os.path.join(dst, "meta.json"), "w"), indent=1)
-        print("%s-%s confirmed=%s detected=%s check_rc=%s :: %s" % (prop, n, confirmed, rec["detected"], crc, (meta.get("what") or "")[:110]))
+        print("%s-%s confirmed=%s detected=%s check_rc=%s :: %s" % (prop, int(n) + int(os.environ.get("SEED_OFFSET", "0")), confirmed, rec["detected"], crc, (meta.get("what") or "")[:110]))
         sh("rm -rf %s/evidence/replays" % VERIF)
     # restore evidence of the unchanged tree
     return 0
